@@ -183,3 +183,70 @@ pub fn abs_token_for(doc: &Doc, a: usize, b: usize, ty: u32) -> AbsToken {
     let q = doc.position_of(b);
     AbsToken { line: p.line, start: p.col, len: q.col - p.col, ty, mods: 0 }
 }
+
+// ----------------------------------------------------------------------------------
+// Positions in a negotiated encoding (LSP 3.17 `general.positionEncodings`): the column
+// counts UTF-8 bytes, UTF-16 code units or code points of the line's text.
+
+#[derive(Clone, Copy, Debug, PartialEq, Eq)]
+pub enum Enc {
+    Utf8,
+    Utf16,
+    Utf32,
+}
+
+impl Enc {
+    pub fn parse(s: &str) -> Option<Enc> {
+        match s {
+            "utf-8" => Some(Enc::Utf8),
+            "utf-16" => Some(Enc::Utf16),
+            "utf-32" => Some(Enc::Utf32),
+            _ => None,
+        }
+    }
+    pub fn width(self, c: char) -> u32 {
+        match self {
+            Enc::Utf8 => c.len_utf8() as u32,
+            Enc::Utf16 => c.len_utf16() as u32,
+            Enc::Utf32 => 1,
+        }
+    }
+}
+
+impl Doc {
+    pub fn offset_of_enc(&self, p: Pos, enc: Enc) -> Result<usize, Invalid> {
+        let lines = self.lines();
+        let Some(&(a, b)) = lines.get(p.line as usize) else { return Err(Invalid::LineBeyondDocument) };
+        let mut col = 0u32;
+        for (i, c) in self.text[a..b].char_indices() {
+            if col == p.col {
+                return Ok(a + i);
+            }
+            let w = enc.width(c);
+            if p.col > col && p.col < col + w {
+                return Err(Invalid::InsideSurrogatePair);
+            }
+            col += w;
+        }
+        if col == p.col {
+            Ok(b)
+        } else {
+            Err(Invalid::ColumnBeyondLine)
+        }
+    }
+
+    pub fn position_of_enc(&self, off: usize, enc: Enc) -> Pos {
+        let lines = self.lines();
+        let mut li = 0;
+        for (i, &(a, _)) in lines.iter().enumerate() {
+            if a <= off {
+                li = i;
+            } else {
+                break;
+            }
+        }
+        let (a, b) = lines[li];
+        let end = off.min(b);
+        Pos { line: li as u32, col: self.text[a..end].chars().map(|c| enc.width(c)).sum() }
+    }
+}
